@@ -530,17 +530,32 @@ impl<I: Ip> PeerMap<I> {
                     Self::Large(peer_map) => peer_map.insert(peer_map_key, peer),
                 }
 
-                if config.statistics.peer_clients && opt_removed_peer.is_none() {
-                    statistics_sender
-                        .try_send(StatisticsMessage::PeerAdded(request.peer_id))
-                        .expect("statistics channel should be unbounded");
+                if config.statistics.peer_clients {
+                    // If the peer re-announced with a different peer id, move
+                    // its count from the previous id to the new one
+                    let previous_peer_id = opt_removed_peer.map(|peer| peer.peer_id);
+
+                    if previous_peer_id != Some(request.peer_id) {
+                        if let Some(previous_peer_id) = previous_peer_id {
+                            statistics_sender
+                                .try_send(StatisticsMessage::PeerRemoved(previous_peer_id))
+                                .expect("statistics channel should be unbounded");
+                        }
+
+                        statistics_sender
+                            .try_send(StatisticsMessage::PeerAdded(request.peer_id))
+                            .expect("statistics channel should be unbounded");
+                    }
                 }
             }
             PeerStatus::Stopped => {
-                if config.statistics.peer_clients && opt_removed_peer.is_some() {
-                    statistics_sender
-                        .try_send(StatisticsMessage::PeerRemoved(request.peer_id))
-                        .expect("statistics channel should be unbounded");
+                if config.statistics.peer_clients {
+                    // Use peer id of the stored peer, not that of the request
+                    if let Some(removed_peer) = opt_removed_peer {
+                        statistics_sender
+                            .try_send(StatisticsMessage::PeerRemoved(removed_peer.peer_id))
+                            .expect("statistics channel should be unbounded");
+                    }
                 }
             }
         };
